@@ -306,5 +306,5 @@ def gen_consts(repo):
 
 def generate(repo):
     from harness.translator import mosek_tab, funcs
-    return {'GenSolrec.v': funcs.gen_solrec(repo), 'GenMosek.v': mosek_tab.gen_mosek(repo), 'GenEcosParse.v': gen_ecos_parse(repo), 'GenProblemSolve.v': gen_problem_solve(repo),
+    return {'GenSolrec.v': funcs.gen_solrec(repo), 'GenConGen.v': funcs.gen_congen(repo), 'GenMosek.v': mosek_tab.gen_mosek(repo), 'GenEcosParse.v': gen_ecos_parse(repo), 'GenProblemSolve.v': gen_problem_solve(repo),
             'GenSettings.v': gen_settings(repo), 'GenConsts.v': gen_consts(repo)}
